@@ -139,6 +139,7 @@ func c19ListLoops(c *eng.Ctx, fn *ssa.Function, isList func(ssa.Value) bool) []*
 }
 
 func c19(c *eng.Ctx) {
+	defer c19Fresh(c)
 	c.Rule("R1", "write-through order in objectStore.Save: on every path that does not take the syncPeriod != 0 edge the API write (createOrUpdate) precedes the write to the local store, the local write is reachable from the API write only over its err == nil edge, and the failure edge returns that error. Otherwise a condition is acknowledged (and served from memory) that a crash or an API fault loses", 2)
 	c.Rule("R2", "createOrUpdate: the function retried by ExponentialBackoff returns done=true only together with the own error of the last API write on that path (nil ⇒ persisted), `err == nil` of Create, or under a nil-error guard; a conflict retries; createOrUpdate returns the backoff's error. `return true, nil` on a conflict would acknowledge an update that was never written", 3)
 	c.Rule("R3", "delete order: in Delete and DeleteUpstream the API delete (NotFound tolerated, every other error returned) precedes the local delete, which is reachable only over the err == nil edge; DeleteUpstream API-deletes every listed condition of the upstream before dropping it locally. A local-first delete that then fails (or crashes) leaves a persisted condition that the next leader loads again", 10)
@@ -832,5 +833,40 @@ func c19Fixtures(c *eng.Ctx) {
 			got = c19ErrorGates(c, fn, w, func(x ssa.Instruction) bool { return eng.IsCall(x, "fx.local") }, "local") == ""
 		}
 		c.Fixture("C19.errorgate/"+t.name, fmt.Sprint(t.want), fmt.Sprint(got))
+	}
+}
+
+
+// ---------------------------------------------------------------------------------------
+// Added after seeded change C19-1: every loaded/flushed item is its own object.
+func c19Fresh(c *eng.Ctx) {
+	c.Rule("R7", "each persisted condition is loaded as its own object: in objectStore.Load (and the flush) the object handed to the local store / API for a listed item is a per-item value (a copy made in the iteration or the list element itself), never the address of a loop-carried cell such as the range variable — otherwise every key of the shard aliases the last listed item, possibly one of another shard", 1)
+	n := 0
+	for _, name := range []string{"Load", "doSyncLocked"} {
+		fn := c.W.Method(pkgRLStoreK8s, "objectStore", name)
+		if fn == nil || fn.Blocks == nil {
+			continue
+		}
+		for _, ci := range eng.Calls(fn) {
+			if !eng.InLoop(ci.Block()) || eng.RecvTypeName(ci) == pkgV1alpha1+".RateLimitCondition" {
+				continue // methods of the condition itself (DeepCopy, getters) only read it
+			}
+			for _, a := range ci.Common().Args {
+				if eng.TypeName(a.Type()) != pkgV1alpha1+".RateLimitCondition" {
+					continue
+				}
+				if _, isPtr := a.Type().Underlying().(*types.Pointer); !isPtr {
+					continue
+				}
+				n++
+				al, isAlloc := a.(*ssa.Alloc)
+				bad := isAlloc && eng.LoopCarriedCell(al)
+				c.Check("R7", fn, fmt.Sprintf("%s: per-item object#%d", name, n), ci.Pos(), !bad,
+					"the address of the loop's own variable is stored for every item: after the loop all entries point at the last item listed")
+			}
+		}
+	}
+	if n == 0 {
+		c.Fail("R7", nil, "per-item objects in Load", 0, "no condition object handed on inside the load loop")
 	}
 }
